@@ -98,6 +98,54 @@ func settle(maxWait time.Duration, socks, gors int, ips ...string) (int, int, []
 	}
 }
 
+// ---- host-stall monitor: a goroutine that sleeps 2 ms in a loop and remembers when it overslept by more than 15 ms. The
+// library's deadlines are Go runtime deadlines: on a host that stops the process for tens of milliseconds they fire late (or a
+// goroutine is held between "deadline not yet expired" and the read), which says nothing about the library. Timing verdicts
+// about a call during which the process was stalled are inconclusive.
+type stallMonitor struct {
+	mu     sync.Mutex
+	stalls [][2]int64 // (end of the oversleep, duration) in monotonic ns
+	stop   chan struct{}
+}
+
+var c09Stalls = &stallMonitor{}
+
+func (m *stallMonitor) start() {
+	m.stop = make(chan struct{})
+	go func() {
+		for {
+			select {
+			case <-m.stop:
+				return
+			default:
+			}
+			t0 := farm.Mono()
+			time.Sleep(2 * time.Millisecond)
+			if over := farm.Mono() - t0 - int64(2*time.Millisecond); over > int64(15*time.Millisecond) {
+				m.mu.Lock()
+				m.stalls = append(m.stalls, [2]int64{farm.Mono(), over})
+				if len(m.stalls) > 4096 {
+					m.stalls = m.stalls[1024:]
+				}
+				m.mu.Unlock()
+			}
+		}
+	}()
+}
+
+// during: the longest stall that overlapped [t0, t1].
+func (m *stallMonitor) during(t0, t1 int64) time.Duration {
+	m.mu.Lock()
+	defer m.mu.Unlock()
+	var worst int64
+	for _, s := range m.stalls {
+		if s[0] >= t0 && s[0]-s[1] <= t1 && s[1] > worst {
+			worst = s[1]
+		}
+	}
+	return time.Duration(worst)
+}
+
 // ---- behaviours
 
 type behaviour struct {
@@ -278,6 +326,7 @@ var c09Behaviours = []behaviour{
 var c09Flood = behaviour{"flood", "broadcast", "error", 0.93, true}
 
 type c09Result struct {
+	t0, t1  int64 // monotonic start / end of the call (for the host-stall monitor)
 	serial  uint32
 	b       behaviour
 	elapsed time.Duration
@@ -320,6 +369,7 @@ func (e *c09Env) run(b behaviour, serial uint32, bind string) c09Result {
 	e.timing.Delete(serial)
 	done := make(chan struct{})
 	start := time.Now()
+	res.t0 = farm.Mono()
 	go func() {
 		defer close(done)
 		var out rm.Outcome
@@ -347,6 +397,7 @@ func (e *c09Env) run(b behaviour, serial uint32, bind string) c09Result {
 		res.hung = true
 		res.elapsed = time.Since(start)
 	}
+	res.t1 = farm.Mono()
 	if b.name == "reply-1.3T" {
 		// the farm still has a (late) datagram to send to this call's port: let it go before the port number can be reused
 		if rest := e.T*13/10 + 10*time.Millisecond - time.Since(start); rest > 0 {
@@ -375,6 +426,14 @@ func (e *c09Env) judge(res c09Result, caseNo int64, phase string, queuePos int) 
 		return
 	}
 	ok := res.err == ""
+	if st := c09Stalls.during(res.t0, res.t1+int64(20*time.Millisecond)); st > 25*time.Millisecond && res.t0 != 0 {
+		// every verdict below compares times: not on a host that stalled the process while this call was running
+		timing := (b.expect == "success" && !ok && b.name != "set-address") || (b.expect == "error" && ok) || (b.minT > 0 && res.elapsed < time.Duration(float64(e.T)*b.minT))
+		if timing {
+			c.Res.Inconcl(fmt.Sprintf("%s over %s: the host stalled the process for %v during the call: timing not judged", b.name, b.path, st))
+			return
+		}
+	}
 	if b.expect == "success" && !ok && b.name != "set-address" && b.name != "discovery" {
 		// a call that gave up early returns before the farm's (delayed) reply has left: give the farm until T after it saw the
 		// request before deciding whether the reply was on its way in time
@@ -422,6 +481,8 @@ func (e *c09Env) judge(res c09Result, caseNo int64, phase string, queuePos int) 
 func c09(c *Ctx) {
 	c.Res.Rule = "every delivery path x network behaviour {silence, prompt, reply at 0.5T/0.7T/1.3T, stray flood until past the deadline, flood then valid, TCP accept-and-stall / reset / close / refused, UDP closed port, unreachable network, SetAddress, discovery}: (1) one call at a time: return time against [minT, T*(queue position+1)+slack], success iff an acceptable reply was sent in time, and the process's library sockets (by /proc/self/fd + /proc/self/net, local address 127.0.0.2/3) must be zero the moment the call returns, library goroutines back to baseline promptly; (2) fixed bind port: queued calls served in turn; (3) leak batches: random parallel sequences of such calls and listener start/stop cycles, sockets and goroutines compared before/after with the GC disabled; distinct = distinct (phase, behaviour, path, port mode, queue position)"
 	debug.SetGCPercent(-1) // a finalizer must not hide a missing Close
+	c09Stalls.start()
+	defer close(c09Stalls.stop)
 	if c.Mode == "netns" {
 		c09Netns(c)
 		return
